@@ -12,7 +12,7 @@ CONSTANTS
   Lits <- MCLits
   Targets = {"A", "R0"}
   Srcs = {"A", "R0"}
-  MaxOps = 5
+  MaxOps = 4
   Shapes = {"l", "v", "vl", "lv", "vv", "vll", "v(lv)", "midset", "lset", "swap", "erase"}
 VIEW View
 INVARIANT RefinesInv
